@@ -1005,6 +1005,60 @@ func (c *Ctx) c13Views(m *pop3Model) {
 			}
 		}
 	}
+	// message numbers are positions in the snapshot: a line that carries loopIndex+1 must come
+	// from a loop over Session.messages / Session.retain itself (or from a snapshot iterator
+	// passing the snapshot position), never from a loop over a filtered copy — after a DELE the
+	// positions in such a copy no longer are the session's message numbers
+	for _, fn := range m.fns {
+		fn := fn
+		for _, b := range fn.Blocks {
+			rel, ok := eng.EdgeRel(b, 0)
+			if !ok || rel.Op != token.LSS || len(b.Succs) != 2 || !b.Dominates(b.Succs[0]) {
+				continue
+			}
+			lc, isLen := rel.Y.(*ssa.Call)
+			if !isLen || eng.CalleeName(lc.Common()) != "builtin.len" {
+				continue
+			}
+			sl := lc.Call.Args[0]
+			isSnap := func(v ssa.Value) bool {
+				f := eng.LoadedField(v)
+				return eng.SameField(f, m.fMessages) || eng.SameField(f, m.fRetain)
+			}
+			if isSnap(sl) || isSnap(resolveCell(sl)) {
+				continue
+			}
+			// an accessor that hands out the snapshot itself
+			if hc, idxR := eng.CallAndIndex(sl); hc != nil {
+				if rets, g := eng.ReturnedValues(hc, idxR); g != nil && len(rets) > 0 {
+					all := true
+					for _, rv := range rets {
+						if !isSnap(rv) {
+							all = false
+						}
+					}
+					if all {
+						continue
+					}
+				}
+			}
+			idx := rel.X
+			for _, bb := range fn.Blocks {
+				if !b.Succs[0].Dominates(bb) {
+					continue
+				}
+				for _, in := range bb.Instrs {
+					call, isCall := in.(*ssa.Call)
+					if !isCall || eng.StaticCallee(call.Common()) != m.send {
+						continue
+					}
+					if sprintfHasIndexPlusOne(call.Call.Args[len(call.Call.Args)-1], idx) {
+						r.Bad("C13/VIEWS", siteCons(p, in, ord, "number-from-copy"), p.InstrPos(in), "the line numbers its entries by position in a slice that is not the session snapshot (a filtered or derived copy): once a message has been marked with DELE the listing renumbers the remaining messages, while RETR/DELE/LIST n keep the original numbers — a client acting on the listing retrieves or deletes the wrong message")
+					}
+				}
+			}
+		}
+	}
 	// single-message LIST / UIDL replies: sends whose text uses messages[n-1] with parsed n
 	nSingle := 0
 	for _, fn := range m.fns {
